@@ -417,7 +417,7 @@ class StmtMixin:
         if n is not None:
             p.assume(i <= n)
         for txt, g in inv_terms(i):
-            p.assume(g)
+            p.assume(g, heavy=True)
         if isinstance(s, ast.For):
             more = i < n
         else:
